@@ -54,7 +54,8 @@ type Fact struct {
 	FArr  []float64
 	SArr  []string
 	BArr  []bool
-	RO    []int64 // never written by generated rules: may be read with computed index
+	RO    []int64          // never written by generated rules: may be read with computed index
+	ROM   map[string]int64 // never written by generated rules: may be read with a computed key
 	Subs  []*Sub
 
 	M    map[string]int64
@@ -77,12 +78,12 @@ type Fact struct {
 type FailMode int
 
 const (
-	FailNone     FailMode = iota
-	FailPanic             // panic("probe failure")
-	FailCancel            // invoke Cancel() and then return normally
-	FailNilDeref          // dereference a nil pointer (runtime panic)
-	FailPanicValue        // panic with a value that is neither an error nor a string (a struct)
-	FailPanicError        // panic with an error value
+	FailNone       FailMode = iota
+	FailPanic               // panic("probe failure")
+	FailCancel              // invoke Cancel() and then return normally
+	FailNilDeref            // dereference a nil pointer (runtime panic)
+	FailPanicValue          // panic with a value that is neither an error nor a string (a struct)
+	FailPanicError          // panic with an error value
 )
 
 // Bailout is a panic value that is neither an error, a string nor a Stringer.
